@@ -222,9 +222,14 @@ def doRun (a : Json) : Except String Json := do
     ("pending", J.nat (r.s.tokPend.length + r.s.sarPend.length)),
     ("implJudge", Json.arr (implJudge.map J.bool).toArray)]
 
+/-- `C12.host {hp}`: `Hostname` of a request whose `Host` header is `hp` -/
+def doHost (a : Json) : Except String Json := do
+  pure (J.hex (hostWithoutPort (← J.getHex a "hp")))
+
 def handle (m : String) (a : Json) : Option (Except String Json) :=
   match m with
   | "run" => some (doRun a)
+  | "host" => some (doHost a)
   | _ => none
 
 end KG.Driver.C12
